@@ -37,6 +37,13 @@ NOTES = """Interpretation choices (read generously, see BUILDING.md rule 1):
   declare) must not influence order, count or content. OOXML: the officeDocument relationship may be the last one
   of /_rels/.rels and workbook.xml.rels / presentation.xml.rels may list styles, theme, masters before the parts.
   [Content_Types] Override-vs-Default variants are not generated.
+* histories (PartsHistory.tla): every history of <= 3 calls out of {Text, TextWithOptions (PPTX: slide selection incl.
+  reordered, notes/titles off, footers excluded; EPUB: navigation exclusion), Markdown, MarkdownWithOptions,
+  MarkdownWithRAGOptions (metadata, TOC), Document, SlideCount/PageCount/ChapterCount, Slide(i)/Chapters()[i], EPUB
+  TableOfContents} on ONE pptx.Reader / epubdoc.Reader over packages with a declared-but-absent part, names needing
+  decoding with wrongly decoded decoys, three rootfiles, declared order different from every other order. Each call
+  must (b) return byte for byte what it returns on a freshly opened reader and (a) present the tokens of the parts it
+  selects in the selected order. The content of the table of contents is only compared with the fresh reader's.
 * references may contain "./" (and for EPUB "../") segments: resolved as RFC 3986 5.2.4 says, relative and absolute.
 * OPC relationship targets are tried relative to the source part ('worksheets/sheet1.xml') and absolute
   ('/xl/worksheets/sheet1.xml'); '..' segments are generated only for EPUB. Speaker notes, slide masters and
@@ -241,7 +248,46 @@ def run(ctx):
         ctx.evaluations += r.get("evals", 0)
     ctx.extra["trace_events"] = len(events)
     _validate_segments(ctx, events)
+    _histories(ctx, q)
     ctx.notes.append(NOTES)
+
+
+def _histories(ctx, q):
+    """Purity of rendering (PartsHistory.tla): histories of calls on ONE pptx.Reader / epubdoc.Reader."""
+    gen = ctx.tlc("PartsHistoryMC", "PartsHistory_mc_quick.cfg" if q else "PartsHistory_mc_thorough.cfg", workers=8,
+                  collect=True, timeout=1800)
+    ctx.tlc("PartsHistoryMC", "PartsHistory_mc_impl.cfg", workers=1, expect_violation=True)
+    cases = gen["cases"]
+    if not cases:
+        raise vlib.MachineryError("PartsHistoryMC emitted no histories")
+    ctx.extra["histories"] = len(cases)
+    c0 = cases[len(cases) // 2]
+    ctx.sample({"history_on_one_%s_reader" % c0["fmt"]: [[c["op"], c["sel"], c["view"]] for c in c0["calls"]], "declared": c0["pages"]})
+    absorb(ctx, ctx.run_driver(["c18", "history"], cases), label="hist")
+    reqs = [{"n": 6, "k": 8, "calls": 6 if q else 10, "salt": i} for i in range(8 if q else 60)]
+    rec = ctx.run_driver(["c18", "histrecord"], reqs)
+    events = []
+    for r in rec:
+        ctx.evaluations += r.get("evals", 0)
+        events += r.get("events") or []
+    if not events:
+        raise vlib.MachineryError("history record driver logged no events")
+    ctx.extra["history_trace_events"] = len(events)
+    tv = ctx.validate_trace("PartsHistoryTrace", "PartsHistoryTrace.cfg", events)
+    if tv["accepted"]:
+        ctx.traces_validated += sum(1 for e in events if e["event"] == "Pkg")
+        return
+    line = tv["depth"]
+    ev = events[line - 1] if 0 < line <= len(events) else None
+    if not ev or ev["event"] == "Pkg":
+        raise vlib.MachineryError("PartsHistoryTrace rejects event %d (%s): the history generator built a package that is not well formed"
+                                  % (line, vlib.json.dumps(ev)[:400]))
+    start = max(i for i in range(line) if events[i]["event"] == "Pkg")
+    before = [e.get("op") for e in events[start + 1:line - 1]]
+    ctx.violation("C18:%s:history-trace:%s" % (events[start].get("fmt"), ev.get("op") or ev["event"].lower()),
+                  "PartsHistoryTrace rejects %s on one %s reader after %s: what it presents is not what a freshly opened reader presents: %s"
+                  % (ev.get("op"), events[start].get("fmt"), before, vlib.json.dumps(ev)[:500]),
+                  {"trace_segment": events[start:line], "rejected_line": line})
 
 
 def replay(ctx, rp):
@@ -259,4 +305,6 @@ def replay(ctx, rp):
             return 1
         print("not reproduced: the recorded request passes on the current tree")
         return 0
+    if isinstance(r0.get("case"), dict) and r0["case"].get("kind") == "history":
+        return replay_generic(ctx, rp, ["c18", "history"])
     return replay_generic(ctx, rp, ["c18", "replay"])
